@@ -1596,6 +1596,7 @@ pub fn drive_heap<T: Reg + Encode + Decode>(ctx: &mut Ctx) {
 		return;
 	}
 	let mut g = ctx.rng_for(&tn, 19);
+	let recursive = env_of::<T>().as_object().map(|o| o.len() > 1).unwrap_or(false);
 	let zero = has_zero_elems(&T::descr()) || has_zero_elems(&env_of::<T>());
 	// zero-sized elements: the decoder loops once per claimed element (terminates, but slowly);
 	// elements with an empty encoding and a non-zero size are the known finding: cap at 2^22
@@ -1629,6 +1630,9 @@ pub fn drive_heap<T: Reg + Encode + Decode>(ctx: &mut Ctx) {
 				// one full 16 KiB preallocation chunk
 				let pay = if i == 0 && ci == 0 { 40000 }
 					else if ctx.tier == "thorough" { *g.pick(&[0usize, 0, 64, 4096, 17000, 65536]) } else { *g.pick(&[0usize, 0, 64, 2048]) };
+				// recursive types: the repeated tail nests one level per repetition, and decoding without a depth limit
+				// recurses as deep as the input says (that is C11's subject, not a heap question): keep the nesting modest
+				let pay = if recursive { pay.min(2048) } else { pay };
 				let tail: Vec<u8> = if i + 1 < b.len() { b[(i + 1)..].to_vec() } else { b.clone() };
 				let mut k = 0;
 				while x.len() < pay + i && !tail.is_empty() { x.push(tail[k % tail.len()]); k += 1; }
